@@ -74,6 +74,10 @@ def catalogue():
         cat.append(dict(kind="raise", cls=c, msg=MSGS[(4 * i + 1) % len(MSGS)], r6=1))
         if i % 3 == 1:
             cat.append(dict(kind="relay", cls=c, msg=MSGS[(4 * i + 2) % len(MSGS)], r6=1))
+    # exception classes that reflect.qual cannot name (the class itself / one of its ancestors has no module name): known finding
+    # exception-class-without-module while the connection is dropped; judged like any raising method once it is not
+    for i, c in enumerate(UNNAMEABLE):
+        cat.append(dict(kind="raise", cls=c, msg=MSGS[(7 * i + 1) % len(MSGS)], r5=1))
     return cat
 
 
@@ -88,6 +92,7 @@ OWN_NAMES = ["foolscap:RemoteException", "foolscap:Violation", "foolscap:BananaE
              "foolscap:NegotiationError"]
 HOMONYM_NAMES = ["Rejected@alpha", "Rejected@beta", "Rejected@beta.sub", "TimeoutError@builtins", "TimeoutError@twisted",
                  "ConnectionRefusedError@builtins", "ConnectionRefusedError@twisted", "ValueError@alpha", "ValueError"]
+UNNAMEABLE = ["NoModError", "NoModBaseError"]
 DEEP_NAMES = ["Mro29", "Mro30", "Mro31", "Mro32", "Mro33", "Mro35", "Mro64", "Mro65", "Mro129", "Mro257", "Mixins45"]
 # what a one-way call can carry: every kind of fault the caller's serializer, the callee's CallUnslicer, the callee's schema, the
 # method or the (never sent) answer can have -- and fault-free calls
@@ -96,6 +101,7 @@ ONE_WAY_INNER = [dict(kind="unserializable", depth=0), dict(kind="unserializable
                  dict(kind="illtyped", depth=0), dict(kind="illtyped", depth=2), dict(kind="unknown-method"),
                  dict(kind="unknown-method-typed", nested=True), dict(kind="unknown-object"),
                  dict(kind="raise", cls="ValueError", msg=["ascii", 5]), dict(kind="raise", cls="BadStrError", msg=["ascii", 3]),
+                 dict(kind="raise", cls="NoModError", msg=["ascii", 4]),       # (no error is ever built for a one-way call: contained)
                  dict(kind="raise-badrepr", cls="MyError", msg=["latin", 10]), dict(kind="typed-raise", i=3, known=True),
                  dict(kind="wrong-arity"), dict(kind="result-unsendable", depth=1), dict(kind="result-violates-callee"),
                  dict(kind="ok", v=9), dict(kind="dict-keys", variant="tuple-int", depth=1),
@@ -155,6 +161,12 @@ SPECIAL = [
     # Broker.callFailed formats the target and the arguments for the local-failure log (InboundDelivery.logFailure, on when the
     # Tub has logLocalFailures or the Broker has no Tub) BEFORE it sends the error: lib/Callee.v unrenderable_delivery_answered
     ("local-failure-log-renders-target", dict(kind="raise-badrepr", cls="ValueError", msg=["ascii", 3])),
+    # KNOWN FINDING (review 2), fixed witness: FailureSlicer.getStateToCopy calls reflect.qual(obj.type) -- and obj.parents, reflect.qual
+    # of every class of the MRO -- unguarded; reflect.qual is __module__ + "." + __name__: TypeError inside Banana.produce for a class
+    # (or an ancestor) whose __module__ is None -> sendFailed, both Brokers disconnected.  lib/Failure.v: nameable = false,
+    # C10_failure_unnameable_refuted / C10_unnameable_error_drops_connection_refuted
+    ("exception-class-without-module", dict(kind="raise", cls="NoModError", msg=["ascii", 3])),
+    ("exception-class-without-module", dict(kind="raise", cls="NoModBaseError", msg=["ascii", 3])),
 ]
 
 
@@ -188,7 +200,8 @@ def run(ctx):
                 "caller's ABORT, callee's rejection, raising / unknown method, unsendable result, refused gift, several faults, fault-free -- "
                 "judged on the siblings, the connection, the methods that ran and the OPEN counters); exception classes with a long ancestry "
                 "(layered hierarchies with an MRO of 29-35, 64, 65, 129, 257 classes, 40 mixins) raised directly and relayed: every class of the "
-                "MRO must reach the caller and answer check()), every batch under one of 17 settings of the four Tub logging "
+                "MRO must reach the caller and answer check()); exception classes reflect.qual cannot name (the class itself / an ancestor "
+                "has __module__ None: known finding exception-class-without-module, fixed witnesses + catalogue + one-way), every batch under one of 17 settings of the four Tub logging "
                 "options (logLocalFailures / logRemoteFailures on caller and callee, or no Tub) and with / without the "
                 "negotiated vocabulary table, both settings of "
                 "unsafeTracebacks and expose-remote-exception-types; non-trivial = distinct batch in which every Deferred "
@@ -209,13 +222,17 @@ def run(ctx):
         "run directly) in addition to the translated shape facts",
         "get_state IS the translation of FailureSlicer.getStateToCopy (symbolic execution of its statements in source order into one "
         "Gallina term over the translated truncate); taken as given: obj.value is not itself a Failure and obj.type is a class (python3), so "
-        "the last branch of its three-way test runs; compared byte for byte with the real FailureSlicer",
+        "the last branch of its three-way test runs; reflect.qual(obj.type) and obj.parents are partial (res) fields of the exception "
+        "record, getTraceback is total once qual(type) returned (twisted renders qual(type) into it); compared byte for byte with the real "
+        "FailureSlicer, including the classes for which it raises",
         "the callee's answer-or-error path (lib/Callee.v) interprets the statement-by-statement translations of Broker.callFailed, "
         "Broker._callFinished, the Deferred chain of Broker.doNextCall and CallUnslicer.reportViolation; what the application and the "
         "serializer do (method raises, result rejected, answer not serializable, target not formattable ...) are parameters of each "
         "delivery, observed on the real objects for the correspondence; Broker._doCall is one outcome bit (shape checked); Twisted's "
         "Deferred chaining (a callback's exception goes to the next errback) is the interpreter's semantics; methods whose Deferred fires "
-        "later only reorder messages (the theorems count per request id)",
+        "later only reorder messages (the theorems count per request id; C10_history_replies gives the order of synchronous histories); "
+        "after the callee's own sendFailed the model stops -- the real callee may still run calls that had already arrived, what it hands "
+        "to send() then never reaches the wire (DeliveryLog.sent_after_crash, excluded from the comparison)",
         "utf8_decode_ignore is exact only on prefixes of well-formed UTF-8 (proved to be the only inputs truncate gives it)",
         "Tub.setOption('expose-remote-exception-types') -> Broker._expose_remote_exception_types plumbing is checked on a "
         "real Tub/Broker once per run, the batches set the Broker attributes directly",
@@ -234,6 +251,7 @@ def run(ctx):
     batches = sweep(ctx, impl)
     # 3. inputs with their own signatures (genuine defects of the tree, or their regression witnesses once repaired)
     special_batches = special(ctx, impl)
+    special_batches += answer_crash_path(ctx, impl)
     ctx.extra["oracle_s"] = round(time.time() - t0, 1)
     t0 = time.time()
     # 4. correspondence with the Coq models
@@ -345,6 +363,11 @@ def judge_faulty(impl, spec, d, opts):
         k = "raise"
     if k == "raise-badrepr":        # the same expectations as for any raising method: the target's repr is none of the caller's business
         k = "raise"
+    if k in ("raise", "raise-noargs", "relay") and spec["cls"] in UNNAMEABLE:
+        # no qualified name exists that could be demanded: the call must fail with a remote, non-Violation failure
+        if d["type"] == "foolscap.tokens.Violation":
+            return "the remote %s was reported as a Violation: %s" % (spec["cls"], d["value"][:200])
+        return None
     if k in ("raise", "raise-noargs", "relay"):
         cls = impl.EXC_CLASSES[spec["cls"]]
         if d["type"] == "foolscap.tokens.Violation" and qual(cls) != "foolscap.tokens.Violation":
@@ -402,6 +425,16 @@ def judge_batch(ctx, impl, specs, opts, r, sigsuffix=""):
     """the property, evaluated directly on what the real Brokers did.  -> True if fine"""
     replay = dict(specs=specs, opts=opts, observed=[short(x) for x in r["results"]], disconnected=r["disconnected"])
     bad = []
+    unn = [s for s in specs if s["kind"] in ("raise", "raise-noargs") and s.get("cls") in UNNAMEABLE]
+    if unn and any(r["disconnected"]) and any(x[0] == 2 for x in r["deliveries"]["crashes"]):
+        # the callee's FailureSlicer raised while an `error` was being written (known finding; what else the batch shows is a
+        # consequence of the dropped connection)
+        ctx.fail("oracle/sibling-affected/exception-class-without-module",
+                 "a remote method raised an exception whose class cannot be named by reflect.qual (%s): FailureSlicer.getStateToCopy raised "
+                 "inside Banana.produce on the callee, the connection was dropped (disconnected=%s), the calls of the batch got %s; batch %s "
+                 "with options %s" % (unn[0]["cls"], r["disconnected"], [(x or {}).get("type") for x in r["results"]][:4], json.dumps(specs), opts),
+                 replay=replay)
+        return False
     if r["escaped"]:
         bad.append(("oracle/exception-escaped", r["escaped"]))
     if any(r["disconnected"]):
@@ -637,8 +670,10 @@ def special(ctx, impl):
             lt = r["later"]
             if any(r["disconnected"]) or sib_bad or r["escaped"] or len(lt) != 2 or not lt[0]["ok"] or not lt[1]["ok"]:
                 ctx.fail("oracle/sibling-affected/" + name,
-                         "a fault that belongs to one call (%s) took the connection down: disconnected=%s, sibling calls %s got %s; "
-                         "batch %s" % (name, r["disconnected"], sib_bad, [short(r["results"][i]) for i in sib_bad][:2], json.dumps(specs)),
+                         "a fault that belongs to one call (%s%s) took the connection down: disconnected=%s, sibling calls %s got %s; "
+                         "batch %s" % (name, ": the remote method raises type('NoMod', (Exception,), {'__module__': None})()" if
+                                       name == "exception-class-without-module" else "", r["disconnected"], sib_bad,
+                                       [short(r["results"][i]) for i in sib_bad][:2], json.dumps(specs)),
                          replay=replay)
             else:
                 d = r["results"][pos]
@@ -646,6 +681,28 @@ def special(ctx, impl):
                     ctx.fail("oracle/call-not-failed/" + name, "the faulty call did not fail: %r%s" % (short(d), SPECIAL_NOTE.get(name, "")), replay=replay)
                 elif f["kind"] == "raise" and (d["type"] == "foolscap.tokens.Violation" or not d["copied"]):
                     ctx.fail("oracle/failure-misreported/" + name, "the remote exception arrived as %r" % (short(d),), replay=replay)
+    return kept
+
+
+def answer_crash_path(ctx, impl):
+    """batches for the crash path of lib/Callee.v when an ANSWER is due (d_answer = SCrash, C10_answer_crash_drops_connection): the
+    method returns a list nested deeper than the interpreter's recursion limit, the AnswerSlicer hits RecursionError inside produce.
+    Correspondence input only (corr_callee); the same defect as the known finding argument-nested-beyond-recursion-limit, met on the
+    result: not a signature of known_findings.json, so it is a note, not a failure."""
+    kept = []
+    for pos in (0, 2):
+        specs = [dict(kind="ok", v=1), dict(kind="ok", v=2), dict(kind="ok", v=3)]
+        specs[pos] = dict(kind="result-deep", depth=2000)
+        opts = dict(unsafe=False, expose=True)
+        with impl.quiet():
+            r = impl.run_batch(specs, opts)
+        kept.append((specs, opts, r))
+        ctx.case(["answer-crash", pos], nontrivial=all(r["fired"]))
+        if any(r["disconnected"]) and pos == 0:
+            ctx.note("C10: a RESULT nested deeper than the interpreter's recursion limit raises RecursionError in the AnswerSlicer inside "
+                     "Banana.produce: connection dropped, siblings get DeadReferenceError (candidate signature "
+                     "oracle/sibling-affected/result-nested-beyond-recursion-limit; same cause as the known finding "
+                     "argument-nested-beyond-recursion-limit); used as input of the crash-path correspondence of lib/Callee.v")
     return kept
 
 
@@ -761,6 +818,9 @@ def corr_send(ctx, impl, batches):
     later_add = call_tree(impl, dict(kind="ok-add", v=40))
     # with a gift in the batch the callee calls back (decgift) and the caller writes answers of its own: oracle only
     batches = [b for b in batches if not any(base(s)["kind"] == "gift" for s in b[0])]
+    # the callee dropped the connection while writing a reply (known findings): lib/Send.v models the caller's own writes, it has no
+    # event "the peer went away"; those batches are compared with lib/Callee.v (corr_callee, crash path)
+    batches = [b for b in batches if not b[2]["deliveries"]["crashes"]]
     shard = 150
     nbad = 0
     total = 0
@@ -880,6 +940,11 @@ def failure_cases(ctx, impl):
         cases.append((c, "deep", False, None, None))
     for n in ((0, 1, 29, 30, 31, 32, 63, 64, 65, 128, 129, 300) if ctx.tier == "thorough" else (30, 31, 129)):
         cases.append(("MyError", "m", bool(n % 2), ["app.layer%d.E%d" % (i, i) for i in range(n)], None))
+    # classes reflect.qual cannot name: getStateToCopy raises (model: e_type / e_parents = Exc); with a substituted parents list only
+    # the type raises
+    cases.append(("NoModError", "x", False, None, None))
+    cases.append(("NoModBaseError", "x", True, None, None))
+    cases.append(("NoModError", "x", True, ["app.E", "builtins.object"], None))
     cases.append(("BadStrError", "x", False, None, None))                  # str() raises: reflect.safe_str's text
     cases.append(("BadStrError", "x", True, None, None))
     for c in UNRENDERABLE[1:]:
@@ -908,7 +973,7 @@ def corr_failure(ctx, impl):
     for cls, msg, unsafe, parents, tb in cases:
         c = impl.EXC_CLASSES[cls]
         st, inp = impl.failure_state(c, msg, unsafe, parents, tb)
-        if isinstance(st, dict) and (len(st["parents"]) != len(inp["parents"]) or not all(
+        if isinstance(st, dict) and inp["parents"] is not None and (len(st["parents"]) != len(inp["parents"]) or not all(
                 trunc_expect(w, 200)(g.decode("utf-8", "replace")) for w, g in zip(inp["parents"], st["parents"]))):
             # "identifies the remote exception's type by class name AND ancestry": one entry per class of the MRO, in order
             ctx.fail("oracle/failure-misreported", "getStateToCopy sends %d of the %d classes of the ancestry of %s (kept: %s .. %s; the MRO "
@@ -925,15 +990,18 @@ def corr_failure(ctx, impl):
                          replay=dict(cls=cls, msg=ascii(msg[:50]), n=len(msg), unsafe=unsafe))
         else:
             o = [0, st]
-            ctx.fail("oracle/sibling-affected/getStateToCopy-raises", "FailureSlicer.getStateToCopy raised %s for %s(%s.. %d chars): inside "
+            ctx.fail("oracle/sibling-affected/" + ("exception-class-without-module" if cls in UNNAMEABLE else "getStateToCopy-raises"),
+                     "FailureSlicer.getStateToCopy raised %s for %s(%s.. %d chars): inside "
                      "Banana.produce this drops the connection" % (st, cls, ascii(msg[:10]), len(msg)),
                      replay=dict(cls=cls, msg=ascii(msg[:50]), n=len(msg), unsafe=unsafe))
         obs.append(o)
         estr = "(Ok %s)" % cps(inp["str"][1]) if inp["str"][0] == "ok" else '(Exc "%s"%%string)' % inp["str"][1]
-        lines.append("(%s, Build_exc %s %s %s %s %s)" % (coq_bool(unsafe), cps(inp["type"]), estr, cps(inp["fallback"]), cps(inp["stack"]),
-                                                         coq_list([cps(p) for p in inp["parents"]])))
+        tstr = "(Ok %s)" % cps(inp["type_res"][1]) if inp["type_res"][0] == "ok" else '(Exc "%s"%%string)' % inp["type_res"][1]
+        pstr = ("(Ok %s)" % coq_list([cps(p) for p in inp["parents_res"][1]]) if inp["parents_res"][0] == "ok" else
+                '(Exc "%s"%%string)' % inp["parents_res"][1])
+        lines.append("(%s, Build_exc %s %s %s %s %s)" % (coq_bool(unsafe), tstr, estr, cps(inp["fallback"]), cps(inp["stack"]), pstr))
         ctx.case(["failure", cls, len(msg), ascii(msg[:3]), unsafe, parents is not None, tb is not None and len(tb)], nontrivial=True)
-        ctx.hist("failure_case", "raises" if o[0] == 0 else "str-raises" if inp["str"][0] != "ok" else
+        ctx.hist("failure_case", "unnameable-class-raises" if o[0] == 0 and cls in UNNAMEABLE else "raises" if o[0] == 0 else "str-raises" if inp["str"][0] != "ok" else
                  "escaped" if any(0xD800 <= ord(ch) < 0xE000 for ch in msg) else
                  "truncated-value" if len(msg.encode("utf-8", "replace")) > 1000 else "fits")
     shard = 60
@@ -948,9 +1016,10 @@ Definition cases : list (bool * exc) := """ + coq_list(lines[si:si + shard]) + "
 Eval vm_compute in map (fun c => match get_state (fst c) (snd c) with
    | Ok s => Good (lh (s_type s)) (lh (s_value s)) (lh (s_traceback s)) (map lh (s_parents s)) (failure_constraint_ok s)
    | Exc e => Raised e end) cases.
+Eval vm_compute in map (fun c => nameable (snd c)) cases.
 """
         try:
-            (vals,) = ctx.coq_eval("C10_failure_%d" % (si // shard), body, requires=REQ_F)
+            vals, nvals = ctx.coq_eval("C10_failure_%d" % (si // shard), body, requires=REQ_F)
         except common.CoqEvalError as e:
             ctx.fail("correspondence-broken", "lib/Failure.v could not be evaluated: " + str(e)[-1500:], has_input=False)
             return
@@ -963,6 +1032,8 @@ Eval vm_compute in map (fun c => match get_state (fst c) (snd c) with
                     m = ["model says the FailureConstraint rejects"] + m
             else:
                 m = [0, v[1]]
+            if nvals[j] is not (o[0] == 1):
+                m = ["model: nameable = %s" % nvals[j]] + m       # C10_failure_returns_iff: getStateToCopy returns iff nameable
             if m != o:
                 nbad += 1
                 if nbad <= 2:
@@ -1076,29 +1147,39 @@ def corr_callee(ctx, impl, batches):
         ins = []
         for x in dl["inbound"]:
             if x["kind"] == "rejected":
-                ins.append("InRejected %s (mk %d false true false true 0 %s false false)" % (coq_bool(x["abort"]), x["reqid"], coq_bool(x["log_local"])))
+                ins.append("InRejected %s (mk %d false true false true 0 %s false false %s)" % (
+                    coq_bool(x["abort"]), x["reqid"], coq_bool(x["log_local"]), coq_bool(x["nameable"])))
             else:
-                ins.append("InDelivered (mk %d %s %s %s %s %d %s %s %s)" % (
-                    x["reqid"], coq_bool(x["schema"]), coq_bool(x["ready"]), coq_bool(x["raises"]), coq_bool(x["result_ok"]),
-                    2 if r["disconnected"][1] and x is dl["inbound"][-1] and not x["raises"] and x["result_ok"] and x["ready"] and
-                    not any(t[1] == x["reqid"] for t in dl["sent"]) else x["answer"],
-                    coq_bool(x["log_local"]), coq_bool(x["repr_raises"]), coq_bool(x["render_raises"])))
+                # answer: 0 written / 1 aborted by a Violation of one of its slicers / 2 Banana.sendFailed was called while it was
+                # being written (observed: DeliveryLog.crashes); nameable: observed on the failure handed to callFailed
+                ins.append("InDelivered (mk %d %s %s %s %s %d %s %s %s %s)" % (
+                    x["reqid"], coq_bool(x["schema"]), coq_bool(x["ready"]), coq_bool(x["raises"]), coq_bool(x["result_ok"]), x["answer"],
+                    coq_bool(x["log_local"]), coq_bool(x["repr_raises"]), coq_bool(x["render_raises"]), coq_bool(x["nameable"])))
             ctx.hist("callee_inbound", x["kind"] + ("" if x["kind"] == "rejected" else ":" + ("not-ready" if not x["ready"] else "raises" if x["raises"]
                      else "result-rejected" if not x["result_ok"] else "answer-aborted" if x["answer"] else "answered") +
                      (" unformattable" if x["repr_raises"] else "")))
-        if any(r["disconnected"]):
-            continue          # (the model's crash outcome needs to know WHICH answer crashed: not observable after the fact)
+        # THE CRASH PATH: the callee's own Banana.sendFailed ran while one of its answers / errors was being written -- the
+        # model must say `connection dropped` at exactly that call, with exactly the messages written before it.  A connection
+        # that went down for another reason (the caller's side crashed: argument-nested-beyond-recursion-limit; a patched tree)
+        # is outside lib/Callee.v, which has no event "the peer went away".
+        crashed = bool(dl["crashes"])
+        if crashed and not all(k in (0, 2) for k, _ in dl["crashes"]):
+            continue          # sendFailed outside any answer / error: not the callee's reply path
+        if any(r["disconnected"]) and not crashed:
+            continue
+        ctx.hist("callee_path", "crash: %s" % ("answer" if dl["crashes"][0][0] == 0 else "error") if crashed else "connection kept")
         cases.append(coq_list(ins))
         meta.append(bi)
     nbad = 0
     for si in range(0, len(cases), 400):
         body = """
 Local Open Scope Z_scope.
-Definition x0 : exc := {| e_type := [86]; e_str := Ok [109]; e_fallback := []; e_stack := []; e_parents := [] |}.
-Definition mk r sch rdy rs rok (ans : Z) ll rr rn : denv :=
+Definition x0 : exc := {| e_type := Ok [86]; e_str := Ok [109]; e_fallback := []; e_stack := []; e_parents := Ok [] |}.
+Definition xbad : exc := {| e_type := Exc "TypeError"%string; e_str := Ok [109]; e_fallback := []; e_stack := []; e_parents := Exc "TypeError"%string |}.
+Definition mk r sch rdy rs rok (ans : Z) ll rr rn (nm : bool) : denv :=
   {| d_reqid := r; d_schema := sch; d_ready := rdy; d_raises := rs; d_result_ok := rok;
      d_answer := (if ans =? 0 then SOk else if ans =? 1 then SViolation else SCrash);
-     d_log_local := ll; d_repr_raises := rr; d_render_raises := rn; d_unsafe := false; d_exc := x0 |}.
+     d_log_local := ll; d_repr_raises := rr; d_render_raises := rn; d_unsafe := false; d_exc := if nm then x0 else xbad |}.
 Definition mcode (m : msg) : Z * Z := match m with MAnswer r => (0, r) | MAnswerAborted r => (1, r) | MError r _ => (2, r) end.
 Definition cases : list (list inbound) := """ + coq_list(cases[si:si + 400]) + """.
 Eval vm_compute in map (fun ins => let s := handle_all ins cinit0 in (map mcode (sent s), active s, cup s)) cases.
@@ -1112,8 +1193,11 @@ Eval vm_compute in map (fun ins => let s := handle_all ins cinit0 in (map mcode 
             ctx.traces += 1
             specs, opts, r = batches[bi]
             dl = r["deliveries"]
-            real = (sorted(tuple(x) for x in dl["sent"]), sorted(dl["active"]), True)
-            model = (sorted(tuple(x) for x in msent), sorted(mactive), mup)
+            crashed = bool(dl["crashes"])
+            # (after a crash the real table is whatever connectionLost left of it: compared only while the connection is up;
+            #  dl["sent"] = what was handed to send() BEFORE the crash -- later answers never reach the wire)
+            real = (sorted(tuple(x) for x in dl["sent"]), None if crashed else sorted(dl["active"]), not crashed)
+            model = (sorted(tuple(x) for x in msent), None if crashed else sorted(mactive), mup)
             if real != model:
                 nbad += 1
                 if nbad <= 2:
